@@ -106,6 +106,60 @@ def coq_properties(pid, timeout=1200):
             "wall_s": round(time.time() - t0, 1)}
 
 
+# ------------------------------------------------------------------ audit
+
+FORBIDDEN = re.compile(r"\b(Admitted|admit|Axiom|Axioms|Parameter|Parameters|Conjecture|Abort|give_up)\b|Unset\s+Guard|bypass_check|type-in-type|impredicative-set|Unset\s+Positivity|Unset\s+Universe\s+Checking")
+
+
+def strip_comments(text):
+    out, depth, i, n = [], 0, 0, len(text)
+    while i < n:
+        if text.startswith("(*", i):
+            depth += 1
+            i += 2
+        elif text.startswith("*)", i) and depth > 0:
+            depth -= 1
+            i += 2
+        else:
+            if depth == 0:
+                out.append(text[i])
+            elif text[i] == "\n":
+                out.append("\n")
+            i += 1
+    return "".join(out)
+
+
+def coq_closure(roots):
+    """transitive closure of `From Verif Require ...` imports, as paths relative to coq/"""
+    seen, todo = [], list(roots)
+    while todo:
+        f = todo.pop()
+        if f in seen or not os.path.exists(os.path.join(COQ, f)):
+            continue
+        seen.append(f)
+        text = strip_comments(open(os.path.join(COQ, f)).read())
+        for m in re.finditer(r"From\s+Verif\s+Require\s+(?:Import\s+|Export\s+)?(.*?)\.(?:\s|$)", text, re.S):
+            for name in m.group(1).split():
+                todo.append("theories/" + name.replace(".", "/") + ".v")
+        for m in re.finditer(r"(?<!Verif )Require\s+(?:Import\s+|Export\s+)?(.*?)\.(?:\s|$)", text, re.S):
+            for name in [x for x in m.group(1).split() if x.startswith("Verif.")]:
+                todo.append("theories/" + name[len("Verif."):].replace(".", "/") + ".v")
+    return sorted(seen)
+
+
+def audit(pid):
+    """forbidden constructs in the dependency closure of the property's Coq files"""
+    files = coq_closure(["theories/Properties/%s.v" % pid, "theories/Check/%s.v" % pid])
+    hits = []
+    for f in files:
+        text = strip_comments(open(os.path.join(COQ, f)).read())
+        for ln, line in enumerate(text.split("\n"), 1):
+            m = FORBIDDEN.search(line)
+            if m:
+                hits.append("%s:%d: %s" % (f, ln, line.strip()[:120]))
+    return files, hits
+
+
 # ------------------------------------------------------------------ Go harness
 
 def go_build(pkg, out, race=False, timeout=1200):
@@ -117,7 +171,12 @@ def go_build(pkg, out, race=False, timeout=1200):
         cmd.append("-race")
         env["CGO_ENABLED"] = "1"
     cmd += ["-o", out, pkg]
-    return sh(cmd, cwd=gd, env=env, timeout=timeout)
+    rc, log = sh(cmd, cwd=gd, env=env, timeout=timeout)
+    if rc != 0 and "could not import" in log and "no such file" in log:
+        # transient Go build-cache race when several builds run concurrently: retry once
+        time.sleep(2)
+        rc, log = sh(cmd, cwd=gd, env=env, timeout=timeout)
+    return rc, log
 
 
 # ------------------------------------------------------------------ model evaluation
@@ -304,6 +363,13 @@ def run_check(spec, tier, replay=None):
     coverage["theorems_closed_under_global_context"] = props["closed"]
     if props["axioms"]:
         assumptions.append("axioms reported by Print Assumptions: " + ", ".join(props["axioms"]))
+    files, hits = audit(pid)
+    coverage["coq_files_in_closure"] = files
+    coverage["audit_forbidden_constructs"] = hits
+    if hits:
+        proofs_ok = False
+        coverage["discharged"] = 0
+        props["log"] = "forbidden constructs (Admitted/Axiom/...):\n" + "\n".join(hits)
     proof_break = None
     if not proofs_ok:
         proof_break = {"broken": "Coq build / theorems of Properties/%s.v no longer check" % pid,
